@@ -41,6 +41,13 @@ def run(repo: Repo, chk: Check):
     from .c06 import r06k, r06h
     chk.guarded(r06k, repo, chk, "R02.f")
     chk.guarded(r06h, repo, chk, "R02.f")
+    chk.rule("R02.g", "with tail_call_optimization the end label of a function, the target of its early returns, is still followed by an instruction that "
+                      "cannot fall through, and whether a function saves ra is decided from the instructions that end up in it (an inlined callee brings its jal "
+                      "along): turning the options on must not change where control goes (shared with R07.c, R06.c/d/f/i)", floor=6)
+    from .c07 import r07c
+    from .c06 import r06cdf
+    chk.guarded(r07c, repo, chk, "R02.g")
+    chk.shared({"R06.c": "R02.g", "R06.d": "R02.g", "R06.f": "R02.g", "R06.i": "R02.g"}, r06cdf, repo, chk)
 
 
 def _option_reads(repo, fields):
